@@ -88,7 +88,10 @@ def chain_case(atoms, else_shape, shape, computed=False):
     elif else_shape == 2:
         # the else body may re-reference every chain name (all of them were evaluated and were false)
         e = [T('E')] + [V(n) for n, d in names if d]
-    prog = [T('<'), If(cs, e), T('>')] + [V(n) for n, d in names[:1] if d]
+    node = If(cs, e)
+    if e is not None and (len(atoms) + else_shape + shape) % 2:
+        node['named_else'] = True
+    prog = [T('<'), node, T('>')] + [V(n) for n, d in names[:1] if d]
     if computed:
         # the same chain with every name served by a mapping that computes its values on access: each condition reads it once
         return dict(prog=[With(X('cm'), prog, mapping=True)], src=sources(kw={'cm': cmap('CM', **ns)}), K=0, fk=[])
